@@ -328,7 +328,11 @@ def native_samples(reg, rnd, n):
                # the script's own target(...) line names a port through a variable / another literal than the caller passes at run time
                "from Reduino import target\nPORT = 'COM9'\ntarget(PORT)\nfrom Reduino.Actuators import Led\nled = Led(13)\nled.on()\n",
                "from Reduino import target\ntarget('COM7', upload=False)\nfrom Reduino.Actuators import Led\nled = Led(13)\nled.on()\n",
-               "from Reduino import target\ntarget(port='COM1', platform='atmelavr', board='uno')\nx = 1\n"]
+               "from Reduino import target\ntarget(port='COM1', platform='atmelavr', board='uno')\nx = 1\n",
+               # characters that str.splitlines() treats as line boundaries inside a string literal of the sketch (form feed, vertical tab, NEL,
+               # line/paragraph separator, carriage return): main.cpp is the returned source verbatim
+               "from Reduino.Communication import SerialMonitor\nmon = SerialMonitor(9600)\nmon.write('page one\x0cpage two')\nmon.write('a\x0bb\x1cc\x85d\u2028e\u2029f')\n",
+               "from Reduino.Communication import SerialMonitor\nmon = SerialMonitor(9600)\nmon.write('cr\\rlf')\nmon.write('tab\\there')\n"]
     for i in range(max(n, 40)):
         plat, board = rnd.choice(pairs)
         jobs.append({"id": f"t{i}", "file": INIT, "unit": "target",
